@@ -19,6 +19,22 @@ Definition t_terr (e : terr) : tree :=
 
 Definition t_addrs_list (l : list addr) : tree := TL (map t_addr l).
 
+Definition ev_id (e : event) : N := match e with EvConnected id => id | EvDisconnected id _ => id end.
+Fixpoint insert_ev (e : event) (run : list event) : list event :=
+  match run with
+  | [] => [e]
+  | h :: t => if ev_id h <=? ev_id e then h :: insert_ev e t else e :: run
+  end.
+Fixpoint canon_events (l run : list event) : list event :=
+  match l with
+  | [] => run
+  | e :: t =>
+      match e with
+      | EvDisconnected _ _ => canon_events t (insert_ev e run)
+      | EvConnected _ => run ++ e :: canon_events t []
+      end
+  end.
+
 Definition t_dgrams (l : list dgram) : tree := TL (map (fun ab => TL [t_addr (fst ab); TB (snd ab)]) l).
 
 (* canonical order of what the server sent: by destination, per destination in emission order *)
@@ -124,8 +140,10 @@ Definition tstep (w : tworld) (op : tree) : tworld * tree :=
       on_ts w (fun t rs => do rs' <- of_pres (broadcast_message rs ch m); Ok (t, rs', TL []))
   | TL [TN 224; TN id; TN ch] =>
       on_ts w (fun t rs => do x <- of_pres (srv_receive_message rs id ch); let (rs', m) := x in Ok (t, rs', topt TB m))
+  (* every pending event; disconnections of several clients produced by one update come out of a hash map in the
+     library, so each maximal run of consecutive disconnect events is listed by client id *)
   | TL [TN 225] =>
-      on_ts w (fun t rs => let (rs', e) := get_event rs in Ok (t, rs', topt t_event e))
+      on_ts w (fun t rs => Ok (t, with_events rs [], TL (map t_event (canon_events (s_events rs) []))))
   | TL [TN 226; TN id] => on_ts w (fun t rs => Ok (t, srv_disconnect rs id, TL []))
   | TL [TN 227] =>
       on_ts w (fun t rs => Ok (t, rs, TL [tn_list (Server.clients_id rs); tn_list (Server.disconnections_id rs);
